@@ -351,7 +351,13 @@ def run_fault(ctx, case):
     if state.get("ecdsa_s_len_increased"):
         bucket = "flip:sig:ecdsa-s-length-increased"  # same leniency one level deeper (ECDSAKey._sigdecode)
     sent_newkeys = 21 in m.types("c2s")
-    if ce is None or done or sent_newkeys:
+    if ce is None and not done and not sent_newkeys:
+        # start_client returns normally when its timeout expires: the client was still busy
+        # (e.g. Message.get_mpint on a length prefix just below 2**20 zero-pads to 1 MiB and
+        # util.inflate_long needs about a minute for that) - not an acceptance
+        ctx.inconc("fault:client-still-busy-at-timeout")
+        return True
+    if done or sent_newkeys:
         what = "accepted" if ce is None else ("initial_kex_done" if done else "sent-NEWKEYS")
         ctx.violation("altered-reply-aborts", "%s:%s" % (bucket, what), case, "start_client raised %r, initial_kex_done=%s, active=%s, client sent types %r" % (ce, done, active, m.types("c2s")))
         return False
